@@ -1040,6 +1040,17 @@ fn evaluate(
                         let garbling_key = GarblingKey::new(label_x[p], label_y[p], w, i as u8);
                         let garbled_row = garbled_gate[i].clone();
                         let (r, mac_r, label_share) = decrypt(&garbling_key, &garbled_row)?;
+                        #[cfg(feature = "__verif")]
+                        for other in (0..4u8).filter(|j| *j as usize != i) {
+                            // a curious evaluator tries the labels it holds on the other rows
+                            let key = GarblingKey::new(label_x[p], label_y[p], w, other);
+                            if decrypt(&key, &garbled_gate[other as usize]).is_ok() {
+                                crate::verif::probe(
+                                    "eval_extra_row",
+                                    ((p as u128) << 64) | ((w as u128) << 8) | other as u128,
+                                );
+                            }
+                        }
                         let Some(mac_r_for_eval) = mac_r.get(p_eval).copied() else {
                             return Err(MpcError::InvalidInputMacForInst(w).into());
                         };
